@@ -279,6 +279,9 @@ def scribble(obj):
         obj.append("Z")
 
 
+MISSING = object()
+
+
 class Live:
     """The real objects of one history."""
 
@@ -316,7 +319,32 @@ class Live:
         return out
 
     def cache_entry(self, key):
-        return self.concrete._cache._cache[key]
+        """MISSING when the entry is gone (peeking is only an early warning; the property speaks about answers)"""
+        return self.concrete._cache._cache.get(key, MISSING)
+
+    def clone(self):
+        """A copy of the live FlowIRConcrete (description, cache and every other attribute) on which a confirming query can be
+        asked without disturbing the live object (a query may itself change what later queries answer).  None if it cannot be made."""
+        try:
+            src = self.concrete
+            dst = object.__new__(type(src))
+            for k, v in vars(src).items():
+                if k == "_cache":
+                    c = type(v)()
+                    for ck, cv in vars(v).items():
+                        if ck != "_lock":
+                            setattr(c, ck, copy.deepcopy(cv))
+                    dst._cache = c
+                else:
+                    setattr(dst, k, copy.deepcopy(v))
+            return dst
+        except Exception:
+            return None
+
+    def side_query(self, label, p, flavour):
+        """the answer the live object would give now, asked on a clone"""
+        obj = self.clone()
+        return self.query(label, p, flavour, 2, obj=obj) if obj is not None else self.query(label, p, flavour, 2)
 
     # -- the actions ------------------------------------------------------------------------
     def query(self, label, p, flavour, variant=0, obj=None):
@@ -349,6 +377,28 @@ class Live:
             self.handed = r
             self.handed_kind = "H" if before else ("M" if uses and (c, p) in self.cache_keys().values() else "O")
             return "ok", r
+        if act == "Peek":
+            # calls that read the configuration without going through the cache; their outcome is not part of the model
+            try:
+                if x == "varrefs":
+                    conc.get_component_variable_references(w.cid[c])
+                elif x == "getopt":
+                    conf.getOptionForNode(w.node[c], "#command.arguments")
+                elif x == "nodevars":
+                    conf.variablesForNode(w.node[c])
+                elif x == "validate":
+                    conc.validate()
+                elif x == "instance":
+                    conc.instance(ignore_errors=True)
+                elif x == "replicate":
+                    conc.replicate(ignore_errors=True)
+                else:
+                    raise ValueError(x)
+            except ValueError:
+                raise
+            except Exception:
+                pass
+            return "done", None
         if act == "MutateReturned":
             scribble(self.handed)
             self.handed = None
@@ -571,10 +621,12 @@ class Runner:
                     continue
                 fkind, fres = self.from_scratch(live, rawkey, raw, who[0], who[1], "full")
                 entry = live.cache_entry(k)
+                if entry is MISSING:
+                    continue
                 if fkind != "ok" or not typed_equal(entry, fres):
                     # confirm with a real query: the stale entry is what a caller gets
                     try:
-                        qk, qr = "ok", live.query(who[0], who[1], "full", 2)
+                        qk, qr = "ok", live.side_query(who[0], who[1], "full")
                     except Exception as e:
                         qk, qr = type(e).__name__, None
                     if qk == fkind and typed_equal(qr, fres):
@@ -607,7 +659,7 @@ class Runner:
                         for f in ("full", "lenient"):
                             fkind, fres = self.from_scratch(live, rawkey, raw, l, p, f)
                             try:
-                                qk, qr = "ok", live.query(l, p, f, 2)
+                                qk, qr = "ok", live.side_query(l, p, f)
                             except Exception as e:
                                 qk, qr = KINDS.get(type(e).__name__, "error:" + type(e).__name__), None
                             if qk != fkind or (qk == "ok" and not typed_equal(qr, fres)):
